@@ -277,12 +277,12 @@ theorem patternTok_lt (s b rest : List Char) (h : patternTok s = some (b, rest))
   · rename_i q r
     split at h
     · split at h
-      · rename_i x rest' hd
+      · rename_i p hp
         split at h
-        · simp only [Option.some.injEq, Prod.mk.injEq] at h
-          have := dropWhile_length_le (· != '"') r
-          rw [hd] at this
-          rw [← h.2]; simp only [List.length_cons] at *; omega
+        · simp only [Option.some.injEq] at h
+          have := strBody_lt _ _ p.1 p.2 (by rw [hp])
+          rw [h] at this
+          simp only [List.length_cons] at *; omega
         · cases h
       · cases h
     · cases h
